@@ -19,6 +19,7 @@ CONSTANTS
   LabelLive = TRUE
   PayloadLive = TRUE
   FileIdFollowsHeader = TRUE
+  DimFollowsData = TRUE
 VIEW noHist
 INVARIANT HistoryIndependent
 INVARIANT NoStaleCount
